@@ -237,6 +237,13 @@ def depth1(seed=0):
         out.append(build(op, [b[0], b[1], constant(True)], bool, f'{op.__name__}3'))
         out.append(build(op, [b[0], constant(False), b[1]], bool, f'{op.__name__}3'))
         out.append(build(op, [b[0], b[1], b[0]], bool, f'{op.__name__}3'))
+        # operands of other types count by their truth value; the result is still a boolean (zero, 0.00 and '' are in the alphabets)
+        for t in (int, D, str, date):
+            c1 = column(POOL[t][0])
+            out.append(build(op, [c1, b[0]], bool, f'{op.__name__}2[{tname(t)},bool]'))
+            out.append(build(op, [b[0], c1], bool, f'{op.__name__}2[bool,{tname(t)}]'))
+        out.append(build(op, [column('s1'), column('i1')], bool, f'{op.__name__}2[str,int]'))
+        out.append(build(op, [column('d1'), column('i1'), column('s1')], bool, f'{op.__name__}3[decimal,int,str]'))
     # COALESCE per type
     for t in SCALARS:
         c1, c2 = POOL[t]
